@@ -23,7 +23,10 @@ ASSUMPTIONS = [
     'bip32 wallets; spec_* is BIP32/39/44/45/48/49/84',
     'tie to /repo: WALLET_KEY_STRUCTURES and KEY_PATH_* are regenerated on every run (translator/gen_walletcfg.py -> '
     'Gen/GenWalletCfg.v), coin types and version bytes come from Gen/GenNetworks.v; Proofs/WalletKeysTables.v proves '
-    'that these regenerated tables equal a frozen copy of the documented values on every field the model reads; every '
+    'that these regenerated tables equal a frozen copy of the documented values on every field the model reads; the '
+    'tests in front of "cannot use multiple witness types" (Wallet.keys_for_path) and "A master private key of depth 0 '
+    'is needed" (Wallet.new_account) are translated from the source text of wallets.py into boolean functions the model '
+    'calls (same file) and proved equal to a frozen copy; every '
     'other lib_* definition is tied by the differential correspondence (whole key table of real wallets after EVERY '
     'command vs the extracted model, from the seed alone)',
     'creation from a mnemonic: wallet_from_mnemonic is the wallet of PBKDF2-HMAC-SHA512(sentence, "mnemonic" || '
@@ -643,6 +646,25 @@ CLASS_FLAG = {'account_wallet_foreign_account_or_network': 'A', 'explicit_path_a
               'level_offset_above_main_key': 'L'}
 
 
+# once a fix is recorded (an entry of known_findings.json with status "fixed" that names the patch, or the class), the
+# rule is expected whatever the library of the run does: a tree that loses the fix again is a violation, not a known class
+FIX_LETTERS = {'C09-5': 'ADL', 'C09-6': 'P', 'C09-7': 'C'}
+
+
+def _fixed_letters():
+    out = set()
+    for e in core.load_known(PROP):
+        if e.get('status') != 'fixed':
+            continue
+        for tag, letters in FIX_LETTERS.items():
+            if tag + '-' in (e.get('fix_patch') or ''):
+                out.update(letters)
+        for key in (e.get('class'), e.get('id')):
+            if key in CLASS_FLAG:
+                out.add(CLASS_FLAG[key])
+    return out
+
+
 def _class_mode(cls):
     """'rule': the library of this run follows the rule on the requests of this class, they belong to the ordinary
     streams; 'known': it does not and the class is recorded as known, they are generated as a stream of their own;
@@ -833,6 +855,16 @@ def gen_probe(rng, big):
         scn = Scn(rng)
         scn.cmds = probe_cmds(rng, scn, what, net, wt, [0, 2, 1][j % 3], incl=rule)
         cs.append(Case('probe_' + what, 'probe' + scn.req()[3:], meta=('run',)))
+    # main keys at depths the key path has no place for
+    for j in range(24 if big else 2):
+        scn = Scn(rng)
+        net = nets[j % len(nets)]
+        wt = 'l' if net.startswith('dogecoin') else 'lps'[j % 3]
+        acct = j % 3
+        scn.cmds = []
+        for n, d in enumerate(rng.sample(['depth1', 'depth2', 'depth4', 'depth5', 'depth1p', 'depth2p', 'depth4p', 'depth5p'], 4)):
+            scn.cmds += [create_cmd(rng, scn, 'a%d' % n, d, net, wt, acct, flags=''), 'K:a%d:-:0:-:-:1' % n]
+        cs.append(Case('probe_depth', 'probe' + scn.req()[3:], meta=('run',)))
     # multisig cosigner wallets: requests the cosigners' keys cannot reach
     ms_known = _class_mode('multisig_request_outside_cosigner_keys') == 'known'
     for j in range((60 if big else 4) + ((30 if big else 3) if ms_known else 0)):
@@ -1053,6 +1085,8 @@ def gen_cases(rng, tier):
 def is_trivial(c, out):
     if c.req.startswith('msrun '):
         return out.startswith('C=ERR') or out == 'BADREQ'
+    if c.kind == 'probe_depth':
+        return 'C=' not in out
     return out.startswith('ERR') or out == 'BADREQ' or 'C=ok' not in out and c.kind != 'expand'
 
 
@@ -1491,6 +1525,13 @@ def prop_check(c, out):
             refuse = net.startswith('dogecoin') and wt != 'legacy'
             srcname = f[6] if len(f) > 6 and f[6] != '-' else None
             if srcname and srcname not in ws:
+                continue
+            if kind.startswith('depth'):
+                # the main key of a BIP32 wallet is a master key (depth 0) or an account key (depth 3): the key path
+                # of the wallet has no other place for it
+                if val == 'ok' and int(kind[5]) not in (0, 3):
+                    return ('Wallet.create accepted a key of depth %s (%s) as the main key of a %s wallet; its key path '
+                            'starts at the master key or at the account key' % (kind[5], kind, wt))
                 continue
             if val != 'ok':
                 if refuse:
@@ -2412,10 +2453,12 @@ def main(tier, seed, replay=None):
                       else ('run',)) for c in rp.get('cases', [])]
     else:
         global LIBFLAGS
-        LIBFLAGS = probe_library(rundir)
+        asked = probe_library(rundir)
+        LIBFLAGS = ''.join(x for x in 'APCDL' if x in asked or x in _fixed_letters())
         res.notes.append('library behaviour asked before generating (A: account-level wallets refuse other accounts / '
-                         'networks, P: account column from the path, C: cosigner_id refused without cosigners): %r'
-                         % LIBFLAGS)
+                         'networks, P: account column from the path, C: cosigner_id refused without cosigners, D: relative '
+                         'paths as long as the key path refused, L: level offsets above the main key refused): %r; expected '
+                         '(asked, or recorded as fixed): %r' % (asked, LIBFLAGS))
         cases = gen_cases(rng, tier)
         if not proof_ok and tier == 'quick':
             # a broken proof widens the search for a failing input: a second, differently seeded batch (the thorough
